@@ -515,11 +515,12 @@ Proof.
   unfold handle_response.
   destruct (n_state nd); destruct (q_kind r); destruct (s_result s); cbn [fst];
     first [ apply keep_refl
-          | exact KC
+          | destruct (ack_counts rv nd r); cbn [fst]; [exact KC | apply keep_refl]
           | unfold pre_vote_received; destruct (_ <? _); [eapply keep_trans; [exact KV|apply keep_election] | exact KV]
           | destruct (vote_counts rv nd r); cbn [fst]; [|apply keep_refl];
-            unfold vote_received; destruct (_ <? _); cbn [fst]; [|exact KV];
-            eapply keep_trans; [exact KV|split; reflexivity]
+            rewrite vote_received_eq; destruct (_ <? _); cbn [fst]; [|exact KV];
+            eapply keep_trans; [exact KV|];
+            destruct (fix_ack_term rv); (split; [reflexivity | rewrite ?local_reset_rows; reflexivity])
           | match goal with |- context [if ?b then _ else _] => destruct b end; cbn [fst]; [split; reflexivity | apply keep_refl] ].
 Qed.
 
@@ -532,6 +533,7 @@ Proof.
   intros rv nd r s L. unfold handle_response.
   destruct (n_state nd) eqn:S; try discriminate.
   destruct (q_kind r); destruct (s_result s); cbn [fst];
+    try (destruct (ack_counts rv nd r); cbn [fst]; left; rewrite ?state_commit, ?term_commit, S; split; reflexivity);
     try (left; rewrite ?state_commit, ?term_commit, S; split; reflexivity);
     try (left; unfold reconcile; cbn [fst]; rewrite S; split; reflexivity);
     try (match goal with |- context [if n_term nd <? ?l then _ else _] => destruct (N.ltb_spec (n_term nd) l) end; cbn [fst];
@@ -561,13 +563,16 @@ Proof.
     - apply wf_log_skipn_chain. apply (w_log _ W).
     - intros e H. apply (w_term _ W). eapply In_skipn; eauto. }
   destruct (n_state nd) eqn:S; destruct (q_kind r); destruct (s_result s); cbn [fst snd];
-    try (apply CM; reflexivity); try (apply RC; reflexivity);
+    try (destruct (ack_counts rv nd r); cbn [fst snd]; [apply CM; reflexivity | intros H; exact (False_ind _ H)]);
+    try (apply RC; reflexivity);
     try (intros H; exact (False_ind _ H));
     try (match goal with |- context [if n_term nd <? ?l then _ else _] => destruct (n_term nd <? l) end; cbn [fst snd];
          intros H; exact (False_ind _ H)).
   - (* Candidate, Vote, Ok *)
     destruct (vote_counts rv nd r); cbn [fst snd]; [|intros []].
-    unfold vote_received. destruct (_ <? _); cbn [fst snd]; [|intros []]. apply HB. reflexivity.
+    rewrite vote_received_eq. destruct (_ <? _); cbn [fst snd]; [|intros []].
+    intros H. match type of H with In _ (heartbeat_no_timer ?X) => destruct (HB X eq_refl H) as [A B] end. split; [exact A|]. intros Kq. destruct (B Kq) as [B1 B2].
+    destruct (fix_ack_term rv); split; [exact B1 | exact B2 | exact B1 | exact B2].
   - (* Election, PreVote, Ok *)
     unfold pre_vote_received. destruct (_ <? _); cbn [fst snd]; [|intros []].
     unfold election; cbn [snd]. intros H. apply in_map_iff in H as [j [<- _]]. unfold req_wf. cbn. split; auto.
